@@ -215,7 +215,8 @@ func (cli *Client) handshake(c diam.Conn) (diam.Conn, error) {
 
 	var dwac chan struct{}
 	if cli.EnableWatchdog {
-		dwac = make(chan struct{})
+		// Buffered: an answer may be dispatched before dwr() starts waiting.
+		dwac = make(chan struct{}, 1)
 		cli.Handler.mux.Handle("DWA", handshakeOK(handleDWA(cli.Handler, dwac)))
 	}
 	for i := 0; i < (int(cli.MaxRetransmits) + 1); i++ {
@@ -297,6 +298,10 @@ func (cli *Client) watchdog(c diam.Conn, dwac chan struct{}) {
 
 func (cli *Client) dwr(c diam.Conn, osid uint32, dwac chan struct{}) {
 	m := cli.makeDWR(osid)
+	select {
+	case <-dwac: // drop a stale ack left over from an earlier request
+	default:
+	}
 	for i := 0; i < (int(cli.MaxRetransmits) + 1); i++ {
 		_, err := m.WriteToStream(c, cli.WatchdogStream)
 		if err != nil {
